@@ -246,10 +246,10 @@ theorem sphero_core_sound (V : List (V3 ℝ)) (r : ℝ) (p : V3 ℝ) (hp : MemHu
   ⟨p, hp, by simp only [distSq, V3.normSq, V3.dot, V3.sub_x, V3.sub_y, V3.sub_z]; nlinarith [mul_self_nonneg r]⟩
 
 /-- **C05 (spheropolyhedron, extruded prism — geometric half).** Every convex combination of the
-prism's vertices `base ∪ (base + r·n)` with `|n| ≤ 1` is within `r` of an explicit point of the core.
-(That a point accepted by the prism's Qhull planes IS such a combination is the facet-completeness
-fact of `cp_mem_hull_of_inside_partial`.) -/
-theorem sphero_prism_sound (V : List (V3 ℝ)) (r : ℝ) (hr : 0 ≤ r) (n : V3 ℝ) (hn : V3.normSq n ≤ 1)
+prism's vertices `(base − r·n) ∪ (base + r·n)` with `|n| ≤ 1` is within `r` of an explicit point of
+the core.  (That a point accepted by the prism's Qhull planes IS such a combination is the
+facet-completeness fact of `cp_mem_hull_of_inside_partial`.) -/
+theorem sphero_prism_sound (V : List (V3 ℝ)) (r : ℝ) (n : V3 ℝ) (hn : V3.normSq n ≤ 1)
     (base : List (V3 ℝ)) (hb : ∀ v ∈ base, v ∈ V) (p : V3 ℝ)
     (hp : MemHull (Sphero.prismVertices r n base) p) : MemSphero V r p := by
   obtain ⟨ws, hlen, ⟨hw, hs⟩, rfl⟩ := hp
@@ -266,9 +266,12 @@ theorem sphero_prism_sound (V : List (V3 ℝ)) (r : ℝ) (hr : 0 ≤ r) (n : V3 
   have hsum : w1.sum + w2.sum = 1 := by rw [← List.sum_append, ← hsplit, hs]
   have s2 : 0 ≤ w2.sum := sum_nonneg_of_forall n2
   have s1 : 0 ≤ w1.sum := sum_nonneg_of_forall n1
-  have hcomb : comb ws (base ++ base.map fun v => v + V3.smul r n) =
-      comb (List.zipWith (· + ·) w1 w2) base + V3.smul w2.sum (V3.smul r n) := by
-    rw [hsplit, comb_append w1 w2 _ _ l1, comb_map_add _ w2 base l2, comb_zipWith_add w1 w2 base l1 l2]
+  have hsub : (base.map fun v => v - V3.smul r n) = base.map fun v => v + V3.smul (-r) n := by
+    apply List.map_congr_left; intro v _; ext <;> simp <;> ring
+  have hcomb : comb ws ((base.map fun v => v - V3.smul r n) ++ base.map fun v => v + V3.smul r n) =
+      comb (List.zipWith (· + ·) w1 w2) base + V3.smul (w2.sum - w1.sum) (V3.smul r n) := by
+    rw [hsplit, comb_append w1 w2 _ _ (by simp [l1]), hsub, comb_map_add _ w1 base l1,
+      comb_map_add _ w2 base l2, comb_zipWith_add w1 w2 base l1 l2]
     ext <;> simp <;> ring
   have hq : MemHull V (comb (List.zipWith (· + ·) w1 w2) base) := by
     apply memHull_comb
@@ -281,22 +284,24 @@ theorem sphero_prism_sound (V : List (V3 ℝ)) (r : ℝ) (hr : 0 ≤ r) (n : V3 
     · intro q hq; exact memHull_of_mem (hb q hq)
   refine ⟨_, hq, ?_⟩
   rw [hcomb]
-  have hd : distSq (comb (List.zipWith (· + ·) w1 w2) base + V3.smul w2.sum (V3.smul r n))
-      (comb (List.zipWith (· + ·) w1 w2) base) = (w2.sum * r) * (w2.sum * r) * V3.normSq n := by
+  have hd : distSq (comb (List.zipWith (· + ·) w1 w2) base + V3.smul (w2.sum - w1.sum) (V3.smul r n))
+      (comb (List.zipWith (· + ·) w1 w2) base) =
+        ((w2.sum - w1.sum) * r) * ((w2.sum - w1.sum) * r) * V3.normSq n := by
     generalize comb (List.zipWith (· + ·) w1 w2) base = q
     obtain ⟨qx, qy, qz⟩ := q; obtain ⟨nx, ny, nz⟩ := n
     simp only [distSq, V3.normSq, V3.dot, V3.sub_x, V3.sub_y, V3.sub_z, V3.add_x, V3.add_y, V3.add_z,
       V3.smul_x, V3.smul_y, V3.smul_z]
     ring
   rw [hd]
-  have h1 : w2.sum * r ≤ r := by nlinarith
-  have h0 : 0 ≤ w2.sum * r := mul_nonneg s2 hr
   have hnn : 0 ≤ V3.normSq n := by
     simp only [V3.normSq, V3.dot]
     exact add_nonneg (add_nonneg (mul_self_nonneg _) (mul_self_nonneg _)) (mul_self_nonneg _)
-  calc (w2.sum * r) * (w2.sum * r) * V3.normSq n ≤ (r * r) * V3.normSq n := by
-        apply mul_le_mul_of_nonneg_right _ hnn; nlinarith
-    _ ≤ r * r * 1 := by apply mul_le_mul_of_nonneg_left hn; nlinarith
+  have hk : ((w2.sum - w1.sum) * r) * ((w2.sum - w1.sum) * r) ≤ r * r := by
+    have h1 : (w2.sum - w1.sum) * (w2.sum - w1.sum) ≤ 1 := by nlinarith
+    nlinarith [mul_self_nonneg r, mul_nonneg (mul_self_nonneg r) (sub_nonneg.mpr h1)]
+  calc ((w2.sum - w1.sum) * r) * ((w2.sum - w1.sum) * r) * V3.normSq n ≤ (r * r) * V3.normSq n :=
+        mul_le_mul_of_nonneg_right hk hnn
+    _ ≤ r * r * 1 := mul_le_mul_of_nonneg_left hn (mul_self_nonneg r)
     _ = r * r := by ring
 
 /-- **C05 (spheropolyhedron, soundness) — partial.**  Every point accepted by `is_inside` is within
